@@ -5,20 +5,21 @@ _ANCHORS = ["src/hgraph/types/metadata/ts_data_slot_ops.cpp", "src/hgraph/types/
             "src/hgraph/types/time_series/ts_output/set_view.cpp", "src/hgraph/types/time_series/ts_output/dict_view.cpp",
             "src/hgraph/types/utils/stable_slot_store.cpp", "src/hgraph/types/utils/slot_observer.cpp",
             "src/hgraph/types/time_series/ts_delta.cpp", "src/hgraph/types/time_series/ts_data/base_view.cpp"]
-_REACH = ["end", "shape_tss", "shape_tsd", "shape_tsl", "shape_tsb", "shape_tsw", "idle_cycle", "added_and_removed_same_cycle",
+_REACH = ["end", "shape_tss", "shape_tsd", "shape_tsl", "shape_tsb", "shape_tsw", "shape_tsd_tss", "key_erased", "nested_remove",
+          "key_recreated_in_later_cycle", "idle_cycle", "added_and_removed_same_cycle",
           "removed_and_readded_same_cycle", "element_only_write", "key_created_without_value", "element_invalidated", "list_grew",
           "element_written_twice_in_cycle", "whole_value_write", "window_cleared", "window_rolled", "min_period_above_one"]
-_OUTSIDE = ("more cycles / mutations per cycle; element types other than int; duration-based windows; nested collection values (TSD<int,TSS>, TSD<int,TSD>); "
+_OUTSIDE = ("more cycles / mutations per cycle; element types other than int; duration-based windows; nested collection values other than TSD<int,TSS<int>>; "
             "REF and forwarding outputs; whole-value replacement of TSS/TSD (copy_value_from)")
 
 reg("C05",
     name="C05_delta", src="harness/C05_delta.cpp",
     anchor_files=_ANCHORS,
     quick=dict(defs=dict(NCYC=2, NOPS=2, NK=2, RAMP=0), symx=dict(shards=16, **{"max-wall": 900})),
-    thorough=dict(defs=dict(NCYC=3, NCYC_TSS=3, NCYC_TSD=3, BIG_LAST=1, NOPS=2, NK=2, RAMP=9), symx=dict(shards=16, **{"max-wall": 3000, "shard-depth": 8})),
+    thorough=dict(defs=dict(NCYC=3, NCYC_TSS=3, NCYC_TSD=3, BIG_LAST=1, MID5=2, NOPS=2, NK=2, RAMP=9), symx=dict(shards=16, **{"max-wall": 3000, "shard-depth": 8})),
     reach=_REACH,
     bounds="unit level, no graph: one real TSOutput of each shape in {TSS<int>, TSD<int,TS<int>>, dynamic TSL<TS<int>>, TSB{a,b}, TSW<int,N,min> with N in 1..3 and "
-           "min in 1..N} (enumerated) observed through the producer view, a bound TSInput consumer, delta_value() and capture_delta(); NCYC cycles (TSS: NCYC_TSS, "
+           "min in 1..N, TSD<int,TSS<int>> (3 cycles of NOPS, MID5, 1 operations from {add (k,e) creating k, remove (k,e), erase k, clear}, elements {0,1})} (enumerated) observed through the producer view, a bound TSInput consumer, delta_value() and capture_delta(); NCYC cycles (TSS: NCYC_TSS, "
            "TSD: NCYC_TSD, TSW: 2*NCYC with one mutation scope per cycle) of NOPS mutations each, enumerated from {nothing, add/remove/clear (TSS), set/erase/clear/"
            "element write/create without value/element invalidate (TSD), element write with growth/whole-value write (TSL, TSB), push/clear/clear+push (TSW)}; "
            "keys from {0..NK-1} (thorough: after a concrete ramp of RAMP further keys inserted in a first cycle, crossing the slot-store growth boundaries); base time, "
